@@ -76,6 +76,7 @@ type fakeNet struct {
 	turnClients  []*fnTurnClient
 	turnMode     string // "ok", "listen-error", "allocate-error", "allocate-blocks"
 	turnRelease  chan struct{}
+	noIPv6       bool // a host without IPv6: udp6 sockets cannot be created
 	listenPacket int
 	// inUseFailures counts listens refused because the port was still held (e.g. by a cycle winding down)
 	inUseFailures int
@@ -131,7 +132,12 @@ func (f *fakeNet) listenUDP(network string, laddr *net.UDPAddr) (*fnSock, error)
 	if laddr != nil && laddr.IP != nil {
 		ip = laddr.IP
 	}
-	if !ip.IsUnspecified() && !f.hasIP(ip) {
+	if ip.IsMulticast() {
+		// (the mDNS group addresses: bindable on any host that has the address family at all)
+		if network == "udp6" && f.noIPv6 {
+			return nil, &net.OpError{Op: "listen", Net: network, Err: os.NewSyscallError("socket", syscall.EAFNOSUPPORT)}
+		}
+	} else if !ip.IsUnspecified() && !f.hasIP(ip) {
 		return nil, &net.OpError{Op: "listen", Net: network, Err: os.NewSyscallError("bind", syscall.EADDRNOTAVAIL)}
 	}
 	a, _ := netip.AddrFromSlice(ip)
